@@ -373,9 +373,36 @@ func init() {
 					c.count("cred:" + cr.kind)
 				}
 			}
+			// an identity WITHOUT an e-mail address that the provider itself does not refuse (providers built on the
+			// ProviderData defaults): with an e-mail restriction configured it must neither obtain a session nor, with whatever
+			// the callback handed out, be forwarded / accepted on any later request
+			if ci < 6 {
+				b := newBrowser()
+				_, loc := e.startLogin(b, "/after")
+				if cb, _, err := e.idp.authorize(loc, idpUser{Sub: "no-email-user"}); err == nil {
+					cu, _ := url.Parse(cb)
+					e.proxy.provider.(*recProvider).forceEnrichOK = true
+					r := e.do(reqSpec{Target: cu.RequestURI(), Cookie: b.cookieHeader()})
+					e.proxy.provider.(*recProvider).forceEnrichOK = false
+					if r.raw != nil {
+						b.apply(r.raw)
+					}
+					c.count("c01:no-email-login")
+					for _, t := range []string{"/app/x", e.opts.ProxyPrefix + "/auth", e.opts.ProxyPrefix + "/userinfo"} {
+						r2 := e.do(reqSpec{Target: t, Cookie: b.cookieHeader()})
+						c.casen(fmt.Sprintf("c01|noemail|%d|%s", ci, t), fmt.Sprint(r2.Status))
+						// (a bypassed route may legitimately forward the request — without identity; judge by identity)
+						asUser := len(r2.Hits) > 0 && (r2.Hits[0].Header.Get("X-Forwarded-User") != "" || r2.Hits[0].Header.Get("X-Forwarded-Email") != "")
+						if hasSessionSet(r, e.opts.Cookie.Name) || asUser || (r2.Status == 200 && strings.HasSuffix(t, "/userinfo") && strings.Contains(r2.Body, "no-email-user")) {
+							c.violation("C01", "an identity without an e-mail address, which no e-mail rule can admit, obtained a session at the callback and is served on "+t,
+								map[string]interface{}{"target": t, "status": r2.Status, "callback_status": r.Status, "cfg": fmt.Sprintf("%+v", cfg)})
+						}
+					}
+				}
+			}
 			e.close()
 		}
-		c.close([]string{"cred:valid", "cred:tampered", "cred:none", "c01:forwarded", "c01:refused", "kind:upstream", "kind:signInPage", "kind:accepted", "kind:userInfo"})
+		c.close([]string{"c01:no-email-login", "cred:valid", "cred:tampered", "cred:none", "c01:forwarded", "c01:refused", "kind:upstream", "kind:signInPage", "kind:accepted", "kind:userInfo"})
 	})
 }
 
